@@ -166,7 +166,9 @@ TReset ==
 \* (the line carries the metrics the running store exports, when there is one: they are functions of the history)
 MetricsOK == (E.metrics.known = "t" /\ phase = "running") =>
                /\ E.metrics.polls = hist.polls /\ E.metrics.pollerrs = hist.pollErrs /\ E.metrics.fetches = hist.fetches
-TEnd == Line("end") /\ Quiet /\ ~S!Urgent /\ (\A r \in ReaderSet : rd[r] = Nil) /\ MetricsOK /\ Adv /\ UNCHANGED <<svars, rets, owed>>
+\* (no listed property speaks about the metrics: a difference is reported as a note in the evidence, it never rejects a history)
+TEnd == Line("end") /\ Quiet /\ ~S!Urgent /\ (\A r \in ReaderSet : rd[r] = Nil) /\ (MetricsOK \/ PrintT(<<"METRICS-DIFF", l>>))
+        /\ Adv /\ UNCHANGED <<svars, rets, owed>>
 
 Init ==
   /\ S!Init /\ svc = [n \in NameSet |-> [ver |-> 1, mode |-> "ok"]]
